@@ -64,6 +64,11 @@ def materialise(sc, root):
         os.makedirs(os.path.dirname(p), exist_ok=True)
         with open(p, "wb") as f:
             f.write(data)
+    for rel, data in getattr(sc, "extra_files", {}).items():
+        p = os.path.join(root, "w", rel)
+        os.makedirs(os.path.dirname(p), exist_ok=True)
+        with open(p, "wb") as f:
+            f.write(data)
     for rel, data in sc.patches:
         with open(os.path.join(root, "patches", rel), "wb") as f:
             f.write(data)
@@ -93,7 +98,7 @@ def command_line(sc, root):
         if sc.flags[k]:
             argv.append(FLAG_ARGS[k])
     args = sc.args if sc.args is not None else sorted(sc.files)
-    return argv + list(args), stdin
+    return argv + [a.replace("<CWD>", os.path.join(root, "w")) for a in args], stdin
 
 
 def execute(sc):
@@ -114,17 +119,41 @@ def execute(sc):
         shutil.rmtree(root, ignore_errors=True)
 
 
+def _excluded_dir(name):
+    return name in ("vendor", "testdata") or name.startswith(".") or name.startswith("_")
+
+
 def provided_and_abs(sc, cwd):
-    """File list in the order the loop visits it (sorted by absolute path, de-duplicated), with
-    the 'provided' form.  Scenarios here name regular .go files explicitly (discovery proper is
-    C15's subject), so this is just de-duplication + sort."""
+    """File list in the order the loop visits it (sorted by absolute path, de-duplicated), with the
+    'provided' form.  This is the *input* of the loop model; discovery itself is modelled in
+    Model/Discover.v and checked by C15.  Scenario trees contain regular files only (plus the
+    'extra' distractor files), so a small reference walk is enough here."""
     args = sc.args if sc.args is not None else sorted(sc.files)
+    regular = set(sc.files) | set(getattr(sc, "extra_files", {}))
     m = {}
     for a in args:
-        ab = os.path.normpath(os.path.join(cwd, a)) if not os.path.isabs(a) else os.path.normpath(a)
-        prov = os.path.relpath(ab, cwd) if not os.path.isabs(a) else ab
-        m[ab] = prov
-    return [(ab, m[ab]) for ab in sorted(m)]
+        a = a.replace("<CWD>", cwd)
+        isabs = os.path.isabs(a)
+        t = a[:-3] if a.endswith("...") else a
+        ab = os.path.normpath(os.path.join(cwd, t)) if not isabs else os.path.normpath(t)
+        rel = os.path.relpath(ab, cwd)
+        cands = []
+        if rel in regular:
+            cands = [rel]
+        else:
+            pre = "" if rel == "." else rel + "/"
+            if not _excluded_dir(os.path.basename(ab)):
+                for f in sorted(regular):
+                    if f.startswith(pre):
+                        inner = f[len(pre):].split("/")[:-1]
+                        if not any(_excluded_dir(d) for d in inner):
+                            cands.append(f)
+        for f in cands:
+            if not f.endswith(".go"):
+                continue
+            fab = os.path.join(cwd, f)
+            m[fab] = os.path.relpath(fab, cwd) if not isabs else fab
+    return [(ab, m[ab]) for ab in sorted(m, key=lambda x: x.encode())]
 
 
 def outcome_of_facts(ff):
